@@ -18,18 +18,19 @@
 EXTENDS Integers, Sequences, FiniteSets, TLC, Json
 CONSTANTS TraceFile, Diagnose
 VARIABLES l, phase, skip,
-          base      \* idle baseline of a churn scenario: [goroutines, fds, conns]
+          base,     \* idle baseline of a churn scenario: [goroutines, fds, conns]
+          live      \* scripted clients that registered, did not close and saw no Stop since: they must be served
 
 Trace == ndJsonDeserialize(TraceFile)
 ToSet(s) == {s[i] : i \in 1..Len(s)}
 
 NoBase == [goroutines |-> 0 - 1, fds |-> 0 - 1, conns |-> 0 - 1]
-Init == l = 1 /\ phase = "init" /\ skip = FALSE /\ base = NoBase
+Init == l = 1 /\ phase = "init" /\ skip = FALSE /\ base = NoBase /\ live = {}
 
 ObsOK(e) ==
   CASE e.kind = "probe"    -> (phase = "running" => e.dialed /\ e.served)
     [] e.kind = "bind"     -> (phase = "stopped" => e.ok)
-    [] e.kind = "registry" -> (phase = "running" /\ ~e.parked => ToSet(e.conns) = ToSet(e.served))
+    [] e.kind = "registry" -> (phase = "running" /\ ~e.parked => ToSet(e.conns) = ToSet(e.served) /\ live \subseteq ToSet(e.served))
     [] e.kind = "client"   -> (phase = "stopped" => e.state \in {"eof", "refused", "closedbyclient"})
     [] e.kind = "final"    -> (phase = "stopped" => e.conns = 0 /\ e.goroutines = 0)
     [] e.kind = "baseline" -> TRUE
@@ -40,18 +41,22 @@ ObsOK(e) ==
     [] OTHER -> FALSE
 
 Handle(e) ==
-  CASE e.ev = "scenario" -> phase' = "init" /\ skip' = FALSE /\ base' = NoBase
+  CASE e.ev = "scenario" -> phase' = "init" /\ skip' = FALSE /\ base' = NoBase /\ live' = {}
     [] e.ev = "call" -> /\ phase' = IF e.call = "Start" THEN "starting" ELSE "stopping"
                         /\ (e.call = "Start" => phase \in {"init", "stopped"})
                         /\ (e.call \in {"Stop", "Restart"} => phase \in {"running"})
                         /\ UNCHANGED <<skip, base>>
+                        /\ live' = IF e.call = "Start" THEN live ELSE {}      \* Stop / Restart close every connection
     [] e.ev = "ret"  -> /\ e.err = ""
                         /\ phase' = IF e.call = "Stop" THEN "stopped" ELSE "running"
-                        /\ UNCHANGED <<skip, base>>
+                        /\ UNCHANGED <<skip, base, live>>
     [] e.ev = "obs"  -> /\ (skip \/ ObsOK(e)) /\ UNCHANGED <<phase, skip>>
                         /\ base' = IF e.kind = "baseline" THEN [goroutines |-> e.goroutines, fds |-> e.fds, conns |-> e.conns] ELSE base
-    [] e.ev = "infeasible" -> skip' = TRUE /\ UNCHANGED <<phase, base>>
-    [] e.ev \in {"point", "release", "dial", "clientclose"} -> UNCHANGED <<phase, skip, base>>
+                        /\ UNCHANGED live
+    [] e.ev = "infeasible" -> skip' = TRUE /\ UNCHANGED <<phase, base, live>>
+    [] e.ev = "registered" -> live' = live \cup {e.x} /\ UNCHANGED <<phase, skip, base>>
+    [] e.ev = "clientclose" -> live' = live \ {e.x} /\ UNCHANGED <<phase, skip, base>>
+    [] e.ev \in {"point", "release", "dial"} -> UNCHANGED <<phase, skip, base, live>>
     [] OTHER -> FALSE
 
 Step == /\ l <= Len(Trace) /\ Trace[l].ev # "end"
@@ -59,10 +64,10 @@ Step == /\ l <= Len(Trace) /\ Trace[l].ev # "end"
         /\ l' = l + 1
 End == /\ l <= Len(Trace) /\ Trace[l].ev = "end"
        /\ PrintT(<<"OK", Trace[l].sc>>)
-       /\ l' = l + 1 /\ phase' = "init" /\ skip' = FALSE /\ base' = NoBase
+       /\ l' = l + 1 /\ phase' = "init" /\ skip' = FALSE /\ base' = NoBase /\ live' = {}
 GiveUp == /\ ~Diagnose /\ l <= Len(Trace)
-          /\ l' = Trace[l].end + 1 /\ phase' = "init" /\ skip' = FALSE /\ base' = NoBase
+          /\ l' = Trace[l].end + 1 /\ phase' = "init" /\ skip' = FALSE /\ base' = NoBase /\ live' = {}
 DiagAt == Diagnose => PrintT(<<"AT", l>>)
 Next == Step \/ End \/ GiveUp
-Spec == Init /\ [][Next]_<<l, phase, skip, base>>
+Spec == Init /\ [][Next]_<<l, phase, skip, base, live>>
 =============================================================================
